@@ -1,0 +1,312 @@
+//go:build verif
+
+package runtime
+
+import (
+	"golang.org/x/text/unicode/norm"
+
+	"github.com/smarthome-go/homescript/v3/homescript/compiler"
+	"github.com/smarthome-go/homescript/v3/homescript/runtime/value"
+)
+
+// Specification vocabulary and contracts checked by /verif/hvc (build tag
+// verif only; see /verif/DESIGN.md, C01/C02/C09/C11).
+
+// ---------------------------------------------------------------------------
+// The operand stack as seen by one instruction
+
+// depth: the operand-stack height.
+func (c Core) depth() int { return len(c.Stack) }
+
+// peek: the k-th value from the top of the operand stack (0 = top).
+func (c Core) peek(k int) value.Value { return *c.Stack[len(c.Stack)-1-k] }
+
+// okTop: the top n (n <= 3) stack slots hold non-nil pointers to non-nil values.
+func (c Core) okTop(n int) bool {
+	if len(c.Stack) < n {
+		return false
+	}
+	if n >= 1 && (c.Stack[len(c.Stack)-1] == nil || *c.Stack[len(c.Stack)-1] == nil) {
+		return false
+	}
+	if n >= 2 && (c.Stack[len(c.Stack)-2] == nil || *c.Stack[len(c.Stack)-2] == nil) {
+		return false
+	}
+	if n >= 3 && (c.Stack[len(c.Stack)-3] == nil || *c.Stack[len(c.Stack)-3] == nil) {
+		return false
+	}
+	return true
+}
+
+// frameIP: the instruction pointer of the current call frame.
+func (c Core) frameIP() uint { return c.CallStack[len(c.CallStack)-1].InstructionPointer }
+
+// ---------------------------------------------------------------------------
+// Source-level semantics of the operators (64-bit two's complement integers,
+// IEEE-754 doubles), the oracle for the arithmetic instructions.
+
+/*@ func intOp
+    wrap int64
+@*/
+func intOp(op compiler.Opcode, l int64, r int64) int64 {
+	switch op {
+	case compiler.Opcode_Add:
+		return l + r
+	case compiler.Opcode_Sub:
+		return l - r
+	case compiler.Opcode_Mul:
+		return l * r
+	case compiler.Opcode_Div:
+		return l / r
+	case compiler.Opcode_Rem:
+		return l % r
+	case compiler.Opcode_Shl:
+		return l << r
+	case compiler.Opcode_Shr:
+		return l >> r
+	case compiler.Opcode_BitOr:
+		return l | r
+	case compiler.Opcode_BitAnd:
+		return l & r
+	case compiler.Opcode_BitXor:
+		return l ^ r
+	}
+	return 0
+}
+
+func floatOp(op compiler.Opcode, l float64, r float64) float64 {
+	switch op {
+	case compiler.Opcode_Add:
+		return l + r
+	case compiler.Opcode_Sub:
+		return l - r
+	case compiler.Opcode_Mul:
+		return l * r
+	case compiler.Opcode_Div:
+		return l / r
+	}
+	return 0
+}
+
+// sameFloat: equal as IEEE-754 values, with NaN equal to NaN.
+func sameFloat(a float64, b float64) bool { return a == b || (a != a && b != b) }
+
+func boolOp(op compiler.Opcode, l bool, r bool) bool {
+	switch op {
+	case compiler.Opcode_BitOr:
+		return l || r
+	case compiler.Opcode_BitAnd:
+		return l && r
+	case compiler.Opcode_BitXor:
+		return l != r
+	}
+	return false
+}
+
+func cmpInt(op compiler.Opcode, l int64, r int64) bool {
+	switch op {
+	case compiler.Opcode_Lt:
+		return l < r
+	case compiler.Opcode_Gt:
+		return l > r
+	case compiler.Opcode_Le:
+		return l <= r
+	case compiler.Opcode_Ge:
+		return l >= r
+	}
+	return false
+}
+
+func cmpFloat(op compiler.Opcode, l float64, r float64) bool {
+	switch op {
+	case compiler.Opcode_Lt:
+		return l < r
+	case compiler.Opcode_Gt:
+		return l > r
+	case compiler.Opcode_Le:
+		return l <= r
+	case compiler.Opcode_Ge:
+		return l >= r
+	}
+	return false
+}
+
+func isCompare(op compiler.Opcode) bool {
+	return op == compiler.Opcode_Lt || op == compiler.Opcode_Gt || op == compiler.Opcode_Le || op == compiler.Opcode_Ge
+}
+
+func isArith(op compiler.Opcode) bool {
+	return op == compiler.Opcode_Add || op == compiler.Opcode_Sub || op == compiler.Opcode_Mul || op == compiler.Opcode_Div
+}
+
+func isIntOnly(op compiler.Opcode) bool {
+	return op == compiler.Opcode_Rem || op == compiler.Opcode_Shl || op == compiler.Opcode_Shr
+}
+
+func isBitwise(op compiler.Opcode) bool {
+	return op == compiler.Opcode_BitOr || op == compiler.Opcode_BitAnd || op == compiler.Opcode_BitXor
+}
+
+// isBinary: instructions that replace the two topmost values (left operand
+// pushed first) by the result of the operator.
+func isBinary(op compiler.Opcode) bool {
+	return isArith(op) || isIntOnly(op) || isBitwise(op) || isCompare(op)
+}
+
+// binResult: v is the value the language prescribes for `l op r`.
+func binResult(op compiler.Opcode, l value.Value, r value.Value, v value.Value) bool {
+	if isCompare(op) {
+		b, ok := v.(value.ValueBool)
+		if !ok {
+			return false
+		}
+		if l.Kind() == value.IntValueKind {
+			return b.Inner == cmpInt(op, l.(value.ValueInt).Inner, r.(value.ValueInt).Inner)
+		}
+		return b.Inner == cmpFloat(op, l.(value.ValueFloat).Inner, r.(value.ValueFloat).Inner)
+	}
+	switch l.Kind() {
+	case value.IntValueKind:
+		x, ok := v.(value.ValueInt)
+		return ok && x.Inner == intOp(op, l.(value.ValueInt).Inner, r.(value.ValueInt).Inner)
+	case value.FloatValueKind:
+		x, ok := v.(value.ValueFloat)
+		return ok && sameFloat(x.Inner, floatOp(op, l.(value.ValueFloat).Inner, r.(value.ValueFloat).Inner))
+	case value.BoolValueKind:
+		x, ok := v.(value.ValueBool)
+		return ok && x.Inner == boolOp(op, l.(value.ValueBool).Inner, r.(value.ValueBool).Inner)
+	case value.StringValueKind:
+		x, ok := v.(value.ValueString)
+		return ok && x.Inner == norm.NFC.String(l.(value.ValueString).Inner+r.(value.ValueString).Inner)
+	}
+	return false
+}
+
+// admissible: the operand kinds the analyzer admits for a binary operator.
+func admissible(op compiler.Opcode, l value.Value, r value.Value) bool {
+	if l.Kind() != r.Kind() {
+		return false
+	}
+	k := l.Kind()
+	switch {
+	case op == compiler.Opcode_Add:
+		return k == value.IntValueKind || k == value.FloatValueKind || k == value.StringValueKind
+	case isArith(op) || isCompare(op):
+		return k == value.IntValueKind || k == value.FloatValueKind
+	case isIntOnly(op) || op == compiler.Opcode_Pow:
+		return k == value.IntValueKind
+	case isBitwise(op):
+		return k == value.IntValueKind || k == value.BoolValueKind
+	}
+	return false
+}
+
+// divisorIsZero: the right operand of a division or remainder is zero.
+func divisorIsZero(r value.Value) bool {
+	switch x := r.(type) {
+	case value.ValueInt:
+		return x.Inner == 0
+	case value.ValueFloat:
+		return x.Inner == 0.0
+	}
+	return false
+}
+
+// negativeShift: the right operand of a shift is negative.
+func negativeShift(r value.Value) bool {
+	x, ok := r.(value.ValueInt)
+	return ok && x.Inner < 0
+}
+
+// raises: the operator raises a runtime error on these operands instead of
+// producing a value.
+func raises(op compiler.Opcode, r value.Value) bool {
+	if op == compiler.Opcode_Div || op == compiler.Opcode_Rem {
+		return divisorIsZero(r)
+	}
+	if op == compiler.Opcode_Shl || op == compiler.Opcode_Shr {
+		return negativeShift(r)
+	}
+	return false
+}
+
+// covered: the opcodes whose execution this contract describes. The other
+// instructions (calls into the host, spawning, member lookup, indexing,
+// casts, iteration, globals, imports) are not under this contract.
+func covered(op compiler.Opcode) bool {
+	switch op {
+	case compiler.Opcode_Nop, compiler.Opcode_AddMempointer, compiler.Opcode_Copy_Push, compiler.Opcode_Drop,
+		compiler.Opcode_Duplicate, compiler.Opcode_Jump, compiler.Opcode_JumpIfFalse, compiler.Opcode_GetVarImm,
+		compiler.Opcode_SetVarImm, compiler.Opcode_Assign, compiler.Opcode_Neg, compiler.Opcode_Some, compiler.Opcode_Not,
+		compiler.Opcode_Pow, compiler.Opcode_SetTryLabel, compiler.Opcode_PopTryLabel, compiler.Opcode_Member_Unwrap,
+		compiler.Opcode_Member_Anyobj, compiler.Opcode_Into_Range, compiler.Opcode_Call_Imm, compiler.Opcode_Return:
+		return true
+	}
+	return isBinary(op)
+}
+
+// instrPre: what the analyzer and the compiler establish before an
+// instruction runs (operand presence and kinds, immediates in range).
+func instrPre(c Core, i compiler.Instruction) bool {
+	if !compiler.VInstrWF(i) || len(c.CallStack) == 0 || c.parent == nil {
+		return false
+	}
+	op := i.Opcode()
+	switch op {
+	case compiler.Opcode_Nop, compiler.Opcode_AddMempointer, compiler.Opcode_Copy_Push, compiler.Opcode_Jump,
+		compiler.Opcode_SetTryLabel, compiler.Opcode_Call_Imm, compiler.Opcode_Return:
+		return true
+	case compiler.Opcode_Drop, compiler.Opcode_Duplicate:
+		return len(c.Stack) >= 1
+	case compiler.Opcode_Some:
+		return c.okTop(1)
+	case compiler.Opcode_JumpIfFalse:
+		return c.okTop(1) && c.peek(0).Kind() == value.BoolValueKind
+	case compiler.Opcode_Neg:
+		return c.okTop(1) && (c.peek(0).Kind() == value.IntValueKind || c.peek(0).Kind() == value.FloatValueKind)
+	case compiler.Opcode_Not:
+		return c.okTop(1) && (c.peek(0).Kind() == value.IntValueKind || c.peek(0).Kind() == value.BoolValueKind)
+	case compiler.Opcode_GetVarImm:
+		return c.MemoryPointer-i.(compiler.OneIntInstruction).Value >= 0 && c.MemoryPointer-i.(compiler.OneIntInstruction).Value < int64(len(c.Memory))
+	case compiler.Opcode_SetVarImm:
+		return len(c.Stack) >= 1 && c.MemoryPointer-i.(compiler.OneIntInstruction).Value >= 0 && c.MemoryPointer-i.(compiler.OneIntInstruction).Value < int64(len(c.Memory))
+	case compiler.Opcode_Assign:
+		return len(c.Stack) >= 2 && c.Stack[len(c.Stack)-1] != nil && c.Stack[len(c.Stack)-2] != nil
+	case compiler.Opcode_PopTryLabel:
+		return len(c.ExceptionCatchLabels) >= 1
+	case compiler.Opcode_Member_Unwrap:
+		return c.okTop(1) && c.peek(0).Kind() == value.OptionValueKind
+	case compiler.Opcode_Member_Anyobj:
+		return c.okTop(1) && c.peek(0).Kind() == value.AnyObjectValueKind
+	case compiler.Opcode_Into_Range:
+		return c.okTop(2) && c.peek(0).Kind() == value.IntValueKind && c.peek(1).Kind() == value.IntValueKind
+	case compiler.Opcode_Pow:
+		return c.okTop(2) && admissible(op, c.peek(1), c.peek(0))
+	}
+	if isBinary(op) {
+		return c.okTop(2) && admissible(op, c.peek(1), c.peek(0))
+	}
+	return false
+}
+
+/*@ func (self Core) fatalErr
+    serves C02
+    trusted
+    modifies nothing
+    ensures result != nil
+@*/
+
+/*@ func (self *VM) SourceMap
+    serves C08
+    trusted
+    modifies nothing
+@*/
+
+/*@ func (self *Core) runInstruction
+    serves C01, C02, C04, C09, C11
+    wrap int64
+    requires covered(instruction.Opcode()) && instrPre(*self, instruction)
+    ensures @binary result == nil && isBinary(instruction.Opcode()) ==> self.depth() == old(self.depth())-1 && binResult(instruction.Opcode(), old(self.peek(1)), old(self.peek(0)), self.peek(0))
+    ensures @raises isBinary(instruction.Opcode()) ==> (result != nil <==> raises(instruction.Opcode(), old(self.peek(0))))
+    ensures @advance result == nil && isBinary(instruction.Opcode()) ==> len(self.CallStack) == old(len(self.CallStack)) && self.frameIP() == old(self.frameIP())+1
+@*/
